@@ -1,7 +1,7 @@
 import Generated.GenViews
 import Props.GenTraverse
 /-!
-# Props.GenViews — the view functions of the log, translated: `values`, `ToJSONLog`, `ToSnapshot` (log.go)
+# Props.GenViews — the view functions of the log, translated: `values`, `ToJSONLog`, `ToSnapshot`, `Heads` (log.go)
 
 `Generated/GenViews.lean` is produced on every run by `harness/cmd/extract/translate2.go`; the theorems identify it
 with what the model (and the correspondence driver, `Driver/Core.lean`) takes the three views to be:
@@ -34,6 +34,9 @@ theorem toJSONLog_eq (l : Log) :
   unfold Generated.Go.toJSONLog jsonHeads
   simp only [gohelper, hashes_fold, List.nil_append]
   try rfl
+
+/-- **`Heads()`, translated**: the heads sorted newest first (`Model.sortedHeads`) -/
+theorem heads_eq (l : Log) : Generated.Go.heads l.entries (before l.sortFn) l.heads = sortedHeads l := rfl
 
 /-- **`ToSnapshot`, translated**: the head hashes in map order and the linearisation -/
 theorem toSnapshot_eq (l : Log) (hE : ∀ e ∈ l.entries, e.hash ≠ []) (hH : ∀ e ∈ l.heads, e.hash ≠ []) :
